@@ -110,7 +110,7 @@ PROPS = {
     'C10': dict(
         level='proof',
         level_text='Kani proves on the compiled crate that the derived Ord/PartialOrd/Eq of Kmer is exactly the numeric order of the packed integer (total, transitive, consistent with ==, min/max) for usize, u64 and u128 storage over the full integer domain; Verus proves the pure lemma that numeric order of canonical values is colexicographic order of the symbol codes (last differing symbol decides)',
-        level_note=KANI_NOTE + '; Iterator::min over kmers() is std glue (assumed); the documented claim that equal-length owned sequences order the same way does NOT hold (known finding F8: Seq orders bit-lexicographically) and is reported as KNOWN-FINDING with its behaviour contract checked',
+        level_note=KANI_NOTE + '; Iterator::min over kmers() is std glue (assumed); the documented claim that equal-length owned sequences order the same way does NOT hold (known finding F8: Seq orders bit-lexicographically) and is reported as KNOWN-FINDING with its behaviour contract checked; the bounded stand-in C10 also orders word-backed k-mers of every orderable codec width (2, 8, 4, 5, 1 bits; Iupac and Amino symbols have no Ord) on pairs differing in one symbol at the first / middle / last position - the Kani harnesses are per (codec, K) and time out when cmp is rewritten over bitvec',
         technique='Kani over the full usize/u64/u128 domain + Verus induction lemma (colex = numeric)',
         verus=[dict(name='c10', mode='T', roots=['lemma_colex'])],
         kani=dict(quick=['kmer_ord_dna_k5', 'kmer_ord_dna_k32', 'kmer_ord_text_k3', 'kmer_ord_miupac_k12_u64', 'kmer_ord_dna_k40_u128'], profiles=['debug']),
